@@ -308,6 +308,7 @@ def run(ctx):
 
     ctx.attempt(_beamops.interpolation_rule, ctx, _ElemLib(repo), "R9.13")
     ctx.attempt(load_family_rule, ctx)
+    ctx.attempt(empty_selection_rule, ctx)
     selection_rules(ctx)
 
     # ---- R9.5 point load
@@ -517,3 +518,79 @@ def load_family_rule(ctx):
             r.fail(ci.qualname, f"family-targets:{ci.name}", f0.file, f0.lineno, ci.name, f"{ci.name}: the load entry points default to different problems {sorted(targets)}")
         else:
             r.ok(f"{ci.name}: every load entry point defaults to {sorted(targets)[0]}")
+
+
+def empty_selection_rule(ctx):
+    """R9.15: 'loads on nodes that do not bound any loaded element contribute nothing': when the node set selects no
+    element at all (a single corner node, nodes of another part of the mesh), the chain integrator -> boundary condition
+    must produce an EMPTY condition, not an exception: (a) __Bc_Integration_Dim interpreted on a mesh whose groups select
+    no element returns no value, no dof, no node; (b) BoundaryCondition(...) accepts that empty triple; (c) Mesh.Get_normals
+    on a node set that bounds no boundary element returns no normal and no node; (d) Get_Elements_Nodes of an empty node
+    array is empty."""
+    repo = ctx.repo
+    r = ctx.rule("R9.15", "a load whose nodes bound no element is an empty condition (integrator, BoundaryCondition, Mesh.Get_normals and Get_Elements_Nodes accept the empty selection without raising)", min_instances=4)
+    simu = repo.cls(SIMU)
+    fI = simu.methods["__Bc_Integration_Dim"]
+    empty_i = lambda: XArray((0,), [], "i")
+    # (a) integrator
+    r.instance(fn=fI.qualname)
+    group = SimpleNamespace(nPe=2, connect=XArray((1, 2), [3, 5]), Get_Elements_Nodes=lambda nodes, exclusively=False, **k: empty_i())
+    obj = XObj(simu, dict(mesh=SimpleNamespace(Nn=8, Get_list_groupElem=lambda d=None: [group])))
+    obj.attrs["Bc_dofs_nodes"] = lambda nodes, unknowns, pt=None: XArray((len(list(XArray.from_nested(nodes).data)) * len(unknowns),), [Lbl("dof", int(n), u) for n in XArray.from_nested(nodes).data for u in unknowns])
+    I = Interp(repo, extra_builtins={"callable": callable})
+    triple = None
+    try:
+        vals, dofs, used = I.call_function(fI, [1, Opaque("pt"), XArray((1,), [7]), [Q(1)], ["x"]], self_obj=obj)
+        sizes = [XArray.from_nested(v).size for v in (vals, dofs, used)]
+        if sizes == [0, 0, 0]:
+            r.ok("__Bc_Integration_Dim: no element selected -> no value, no dof, no node")
+            triple = (vals, dofs, used)
+        else:
+            r.fail(fI.qualname, "empty-selection:integrator", fI.file, fI.lineno, "__Bc_Integration_Dim", f"no element selected, yet {sizes[0]} values / {sizes[1]} dofs / {sizes[2]} nodes are returned: nodes that bound no loaded element receive load")
+    except XRaise as e:
+        r.fail(fI.qualname, "empty-selection:integrator", fI.file, fI.lineno, "__Bc_Integration_Dim", f"no element selected: raises {e} (a load on nodes that bound no element must contribute nothing, not fail)")
+    # (b) the condition object
+    bc = repo.cls("EasyFEA.FEM._boundary_conditions.BoundaryCondition")
+    fB = bc.methods["__init__"]
+    r.instance(fn=fB.qualname)
+    try:
+        o = XObj(bc, {})
+        I2 = Interp(repo)
+        I2.call_function(fB, [Opaque("pt"), empty_i(), empty_i(), ["x"], XArray((0,), []), ""], self_obj=o)
+        r.ok("BoundaryCondition accepts (no node, no dof, no value)")
+    except XRaise as e:
+        r.fail(fB.qualname, "empty-selection:condition", fB.file, fB.lineno, "BoundaryCondition.__init__", f"a condition on no node raises {e}: add_lineLoad / add_surfLoad / add_volumeLoad on nodes that bound no element fail instead of contributing nothing")
+    # (c) normals
+    mesh = repo.cls("EasyFEA.FEM._mesh.Mesh")
+    fN = mesh.methods["Get_normals"]
+    r.instance(fn=fN.qualname)
+    try:
+        g2 = SimpleNamespace(Get_Elements_Nodes=lambda nodes, exclusively=False, **k: empty_i())
+        o = XObj(mesh, {"Nn": 8, "dim": 2, "Get_list_groupElem": lambda d=None: [g2], "nodes": XArray((8,), list(range(8)), "i")})
+        I3 = Interp(repo)
+        out = I3.call_function(fN, [XArray((1,), [7], "i")], self_obj=o)
+        nrm, nds = XArray.from_nested(out[0]), XArray.from_nested(out[1])
+        if nrm.size == 0 and nds.size == 0:
+            r.ok("Mesh.Get_normals: nodes bounding no boundary element -> no normal, no node")
+        else:
+            r.fail(fN.qualname, "empty-selection:normals", fN.file, fN.lineno, "Mesh.Get_normals", f"nodes bounding no boundary element give {nrm.shape} normals")
+    except XRaise as e:
+        r.fail(fN.qualname, "empty-selection:normals", fN.file, fN.lineno, "Mesh.Get_normals", f"nodes bounding no boundary element: raises {e} (add_pressureLoad fails instead of contributing nothing)")
+    # (d) element selection of an empty node set
+    ge = repo.cls("EasyFEA.FEM._group_elem._GroupElem")
+    fE = ge.methods["Get_Elements_Nodes"]
+    r.instance(fn=fE.qualname)
+    try:
+        from .c03 import XCsr
+
+        conn = XArray((2, 2), [0, 1, 1, 2], "i")
+        cne = XCsr((XArray((4,), [1, 1, 1, 1]), (XArray((4,), [0, 1, 1, 2], "i"), XArray((4,), [0, 0, 1, 1], "i"))), shape=(3, 2))
+        o = XObj(ge, {ge.mangle("__connect"): conn, "Get_connect_n_e": lambda: cne, "Nn": 3})
+        I4 = Interp(repo)
+        out = XArray.from_nested(I4.call_function(fE, [empty_i(), True], self_obj=o))
+        if out.size == 0:
+            r.ok("Get_Elements_Nodes(no node) -> no element")
+        else:
+            r.fail(fE.qualname, "empty-selection:elements", fE.file, fE.lineno, "_GroupElem.Get_Elements_Nodes", f"an empty node set selects {out.size} elements")
+    except XRaise as e:
+        r.fail(fE.qualname, "empty-selection:elements", fE.file, fE.lineno, "_GroupElem.Get_Elements_Nodes", f"an empty node set raises {e}")
